@@ -252,7 +252,9 @@ C17_ReportedExact == Finished => Diff([input |-> Input, observed |-> Observed]) 
 C17_LineCounter == phase = "lex" => line = 1 + NLCount(src, 1, pos - 1)
 
 \* generation: every explored text inside the quantifier becomes a replay case for the real code
-Emit == (Finished /\ InQuantifier(Input)) => PrintT(<<"CASE", ToJson([input |-> Input])>>)
+\* (`machine` = what this Machine reported; compared with the real code as a drift note only)
+Emit == (Finished /\ InQuantifier(Input)) =>
+          PrintT(<<"CASE", ToJson([input |-> Input, machine |-> [panic |-> panic, todos |-> Observed.todos]])>>)
 
 \* development aid (tlc -continue): print the violating inputs instead of stopping
 ShowDiff == Finished => LET d == Diff([input |-> Input, observed |-> Observed])
